@@ -250,14 +250,14 @@ theorem lzma2Decode_of_chunks (p : Props) (hp : PropsOk p) (dictSize : Nat) (hd 
       (Ready.boundary hb hch hin0) (by rw [hprod0, hoff]; omega) (by omega) (by omega) (by omega)
     exact ⟨sF, hrun, hwF, hpF, hiF, hobF, hinpF, hleF⟩
 
-/-- Executable LZMA2 chunker, then executable LZMA2 decoder: the data comes back, LZMA_STREAM_END, every byte consumed. -/
-theorem lzma2_exec_roundtrip (p : Props) (hp : PropsOk p) (dictSize : Nat) (hd : dictSize ≤ 4294967295)
+/-- For ANY chunk-closing limits: executable LZMA2 chunker, then executable LZMA2 decoder: the data comes back, LZMA_STREAM_END, every byte consumed. -/
+theorem lzma2_exec_roundtripL (lim : ChunkLimits) (p : Props) (hp : PropsOk p) (dictSize : Nat) (hd : dictSize ≤ 4294967295)
     (preset data : ByteArray) (tr : Array TraceRec) (res : EncResult)
-    (h : lzma2Encode p dictSize (preset ++ data) preset.size tr = .ok res) (outCap : Nat) (hcap : data.size < outCap) :
+    (h : lzma2EncodeL lim p dictSize (preset ++ data) preset.size tr = .ok res) (outCap : Nat) (hcap : data.size < outCap) :
     lzma2Decode dictSize res.out preset.toList outCap =
       { ret := .streamEnd, out := data.toList, consumed := res.out.length } := by
   have hsz : (preset ++ data).size = preset.size + data.size := ByteArray.size_append
-  obtain ⟨bytes, CF, hch, hoff, hout⟩ := lzma2Encode_sound p dictSize (preset ++ data) preset.size tr res (by omega) h
+  obtain ⟨bytes, CF, hch, hoff, hout⟩ := lzma2EncodeL_sound lim p dictSize (preset ++ data) preset.size tr res (by omega) h
   have hall : hl (preset ++ data) = hl preset ++ hl data := by simp only [hl, ByteArray.toList_data_append]
   have htake : (hl (preset ++ data)).take preset.size = preset.toList := by
     rw [hall, toList_eq, List.take_left' (hl_length preset)]; rfl
@@ -267,5 +267,13 @@ theorem lzma2_exec_roundtrip (p : Props) (hp : PropsOk p) (dictSize : Nat) (hd :
   rw [htake, hdrop] at this
   rw [hout, this]
   simp
+
+/-- Executable LZMA2 chunker, then executable LZMA2 decoder: the data comes back, LZMA_STREAM_END, every byte consumed. -/
+theorem lzma2_exec_roundtrip (p : Props) (hp : PropsOk p) (dictSize : Nat) (hd : dictSize ≤ 4294967295)
+    (preset data : ByteArray) (tr : Array TraceRec) (res : EncResult)
+    (h : lzma2Encode p dictSize (preset ++ data) preset.size tr = .ok res) (outCap : Nat) (hcap : data.size < outCap) :
+    lzma2Decode dictSize res.out preset.toList outCap =
+      { ret := .streamEnd, out := data.toList, consumed := res.out.length } := by
+  rw [lzma2Encode_std] at h; exact lzma2_exec_roundtripL .std p hp dictSize hd preset data tr res h outCap hcap
 
 end XzVerif.LzmaExec
